@@ -9,7 +9,7 @@ From Pq Require Import Format.Nested Impl.CAssemble Impl.CAssembleFixed Proofs.N
   Proofs.CAssemblePagesProofs Proofs.NestedMapProofs Proofs.NestedInvProofs
   Proofs.CAssembleTightProofs Proofs.CAssembleFixedProofs Proofs.CAssembleV2Proofs
   Proofs.NestedStructProofs Proofs.CAssemblePyProofs
-  Proofs.PyDictProofs Proofs.NestedPageProofs Proofs.HybridProofs Proofs.CAssembleEmptyProofs Impl.CShapes Proofs.CAssembleShapes Codec.Hybrid Base.Bytes.
+  Proofs.PyDictProofs Proofs.NestedPageProofs Proofs.HybridProofs Proofs.CAssembleEmptyProofs Impl.CShapes Proofs.CAssembleShapes Proofs.CShapesProofs Codec.Hybrid Base.Bytes.
 Import ListNotations.
 Open Scope N_scope.
 
@@ -355,3 +355,20 @@ Theorem C15_two_level_list_refuted :
     column_cells false rows (length rows) <> map Some rows.
 Proof. exact two_level_list_refuted. Qed.
 Print Assumptions C15_two_level_list_refuted.
+
+(* ---- wave 4: nested collections of depth > 1.  The reader REFUSES (NotImplementedError in core._nested_levels, model `refuses`) exactly
+   the columns with more than one REPEATED element on their path - LIST<LIST<..>>, MAP<k, LIST<..>>, LIST<MAP<..>>, collections below a
+   repeated group, at any depth - and no one-level LIST / MAP column below any stack of structs.  (What the one-level loop would do
+   with two repetition levels: C15_two_rep_levels_merged_refuted.) *)
+Theorem C15_refused_iff_two_repeated : forall p, refuses p = true <-> (2 <= n_rep p)%nat.
+Proof. exact refuses_iff. Qed.
+Print Assumptions C15_refused_iff_two_repeated.
+
+Theorem C15_nested_collection_refused : forall a b c : list reptype, refuses (a ++ REPEATED :: b ++ REPEATED :: c) = true.
+Proof. exact nested_collection_refused. Qed.
+Print Assumptions C15_nested_collection_refused.
+
+Theorem C15_one_level_not_refused : forall (outer : list bool) (sh : shape),
+  refuses (map (fun o : bool => if o then OPTIONAL else REQUIRED) outer ++ shape_path sh) = false.
+Proof. exact one_level_not_refused. Qed.
+Print Assumptions C15_one_level_not_refused.
